@@ -3,10 +3,10 @@ import random
 
 from harness import runner, tlc, isagen
 
-INV = ['SelectedIsLeastAccepting', 'RegisterNeverNumeric', 'NoAcceptingMeansRejected', 'Emit']
+INV = ['SelectedIsLeastAccepting', 'RegisterNeverNumeric', 'NoAcceptingMeansRejected', 'ValueNeverSelects', 'Emit']
 TXT = {'r': 'r1', 'r2': 'r2', '[r]': '[r1]', '[r+n]': '[r1+5]', '[n]': '[5]', '[[n]]': '[[5]]', 'r+n': 'r1+5', 'key': 'kx',
-       'void': '', 'num': '5', 'lab': 'lab', '{n}': '{5}', 'hexa': '$a', 'chra': "'a'", 'r++': 'r1++', '@r': '@r1', '-[r]': '-[r1]'}
-VAL = {'num': 5, 'lab': 9, 'key': 7, '{n}': 5, 'hexa': 10, 'chra': 97}
+       'void': '', 'bignum': '300', 'num': '5', 'lab': 'lab', '{n}': '{5}', 'hexa': '$a', 'chra': "'a'", 'r++': 'r1++', '@r': '@r1', '-[r]': '-[r1]'}
+VAL = {'bignum': 300, 'num': 5, 'lab': 9, 'key': 7, '{n}': 5, 'hexa': 10, 'chra': 97}
 
 
 def oname(aid):
@@ -26,6 +26,8 @@ def alt_cfg(a):
         return {'type': 'register', 'register': 'r1', 'bytecode': code, 'decorator': {'type': 'at', 'is_prefix': True}}
     if ty == 'indirect_register_pre':
         return {'type': 'indirect_register', 'register': 'r1', 'bytecode': code, 'decorator': {'type': 'minus', 'is_prefix': True}}
+    if ty == 'numeric16':
+        return {'type': 'numeric', 'bytecode': code, 'argument': {'size': 16, 'byte_align': False}}
     if ty == 'numeric_va':
         return {'type': 'numeric', 'bytecode': code, 'argument': dict(arg, valid_address=True)}
     if ty == 'indirect_register':
@@ -73,10 +75,14 @@ def build(e, stmts=None):
     ins = dict(variants[0])
     if len(variants) > 1:
         ins['variants'] = variants[1:]
+    # a macro whose variants carry the same operand configurations: variant i expands to the marker instruction mk<i>
+    macro_variants = [{'operands': v['operands'], 'instructions': [f'mk{i + 1}']} for i, v in enumerate(variants)]
     if not opsets:
         opsets = {'dummy': {'operand_values': {'d': {'type': 'numeric', 'argument': {'size': 8, 'byte_align': True}}}}}
     cfg = {'description': 'generated', 'general': isagen.base_general('big', registers=['r1', 'r2', 'a']), 'operand_sets': opsets,
-           'instructions': {'ins': ins}}
+           'instructions': {'ins': ins}, 'macros': {'mac': macro_variants}}
+    for i in range(len(variants)):
+        cfg['instructions'][f'mk{i + 1}'] = {'bytecode': {'value': 0xE0 + i + 1, 'size': 8}}
     stmts = stmts if stmts is not None else [e['t']]
     src = 'kx = 7\nlab = 9\n' + ''.join('InS ' + ', '.join(TXT[t] for t in ts) + '\n' for ts in stmts)
     return isagen.dump(cfg), src
@@ -118,6 +124,16 @@ def evaluate(e):
         if obs['image'] != want:
             return {'m': f'encoding names variant/alternatives {obs["image"].hex()}, priority prescribes {want.hex()} '
                          f'(variant {e["r"]["v"]}, alternatives {e["r"]["ids"]})', 'case': case}
+    # the macro with the same variants: chosen by the same rules (the marker byte names the variant)
+    msrc = src.replace('InS ', 'mac ')
+    mcase = {'config': isa, 'files': {'main.asm': msrc}, 'start': 0, 'end': 0}
+    mobs = runner.run_case(mcase)
+    sel = e['sel']          # the macro's steps do not use the operands, so only the selection matters (no field has to hold a value)
+    if sel['ok'] != (mobs['status'] == 'ok'):
+        return {'m': f'as a macro with the same variants: specification {"selects variant %d" % sel["v"] if sel["ok"] else "rejects"}, '
+                     f'implementation {mobs["status"]} {(mobs.get("msg") or "")[:120]} {mobs["image"].hex() if mobs.get("image") else ""}', 'case': mcase}
+    if sel['ok'] and mobs['image'] != bytes([0xE0 + sel['v']]):
+        return {'m': f'as a macro with the same variants: marker {mobs["image"].hex()}, priority prescribes variant {sel["v"]}', 'case': mcase}
     return None
 
 
@@ -167,7 +183,10 @@ def run(chk):
         emits = res.emits
         cap = 14000 if quick else 120000
         if len(emits) > cap:
-            emits = rng.sample(emits, cap)
+            # every scenario in which a value decides the statement's fate after selection, and a seeded sample of the others
+            keep = [e for e in emits if e['r'] != e['sel']]
+            rest = [e for e in emits if e['r'] == e['sel']]
+            emits = keep[:cap // 2] + rng.sample(rest, cap - min(len(keep), cap // 2))
         chk.notes.setdefault('instances', []).append({'tag': tag, 'enumerated': len(res.emits), 'replayed': len(emits)})
         outs = runner.pmap(evaluate, emits)
         for e, r in zip(emits, outs):
